@@ -176,6 +176,19 @@ pub fn o_disc(a: &Analysis) -> Vec<Violation> {
     let cs = Counts::of(a, Side::S);
     let cr = Counts::of(a, Side::R);
     let cb = first_close_begin(a);
+    // is_terminated() == true says: no sender handle is left and nothing is buffered. A blocked or pending send
+    // keeps its handle borrowed, so from that instant on no value can ever be received again.
+    for o in a.d.recs.iter() {
+        if let (Op::Observe { what: Obs::IsTerminated, .. }, Res::Obs(1)) = (&o.op, &o.res) {
+            if let Some(rv) = a.recvs.iter().find(|rv| rv.inv > o.ret && o.ret != 0) {
+                out.push(v(
+                    "disc/value-after-terminated".to_string(),
+                    format!("is_terminated() returned true at {}, yet {} of task {} that began at {} obtained {:?}", o.ret, rv.kind, rv.task, rv.inv, rv.ident),
+                ));
+                break;
+            }
+        }
+    }
     for r in a.d.recs.iter() {
         if r.res == Res::Skipped || r.res == Res::Incomplete || r.ret == 0 {
             continue;
